@@ -217,6 +217,30 @@ def main(argv=None):
             tasks = tasks + ctasks
             frontier = {s for r in cres for s in r.get("stubs", [])} - have
 
+    # The gadget layer is verified against the abstract backend of pyvc/ghost.py: evaluation of linear combinations is
+    # the field expression of the operands' evaluations, fieldinverse inverts modulo the reported prime and refuses
+    # zero.  Properties that speak about the witness and the constraints (satisfaction, soundness, value = wire
+    # expression) lean on exactly that interface, so their check also discharges the contracts that establish it for
+    # the concrete backends (value, raise and frame clauses of the backend-layer contracts of C13).
+    if not a.only and prop != "C13" and (set(PR.FACETS[prop]) & set("CSEG") or prop == "C04") \
+            and any(K.layer == "gadget" for K, _ in sel):
+        have = {K.name for K, _ in sel} | via_callee
+        btasks = []
+        bnames = set()
+        for nm, K in sorted(ct.REGISTRY.items()):
+            if K.layer == "backend" and "C13" in getattr(K, "vprops", ()) and nm not in have:
+                bnames.add(nm)
+                for cfg in K.configs(tier):
+                    btasks.append((nm, cfg, "VRFK", tier))
+        if btasks:
+            bres = run_tasks(btasks, a.jobs, tier)
+            for r in bres:
+                r["via_callee"] = True
+                r["via_backend_interface"] = True
+            via_callee |= bnames
+            results = list(results) + bres
+            tasks = tasks + btasks
+
     # A failed frame obligation means the per-call pre-states no longer cover what the API can produce.  Search
     # the pre-states reachable through one earlier call of the same function for a failing input (pyvc/history.py).
     from pyvc import history as HI
@@ -248,7 +272,9 @@ def main(argv=None):
         for ob in r["obligations"]:
             if prop in PR.clause_props(ct.REGISTRY[r["function"]], ob["name"], r["cfg_raw"]):
                 obligations.append((r["function"], r["cfg_raw"], ob))
-            elif r.get("via_callee") and not ob.get("canary") and ob["name"].split(".")[0] in PR.FACET_OF_LETTER_SET(prop):
+            elif r.get("via_callee") and not ob.get("canary") and (
+                    ob["name"].split(".")[0] in PR.FACET_OF_LETTER_SET(prop)
+                    or (r.get("via_backend_interface") and "C13" in PR.clause_props(ct.REGISTRY[r["function"]], ob["name"], r["cfg_raw"]))):
                 ob["via_callee"] = True
                 obligations.append((r["function"], r["cfg_raw"], ob))
     # cross-configuration trace equality (C06): same public parameters => same event list
